@@ -282,12 +282,13 @@ def build_solver(torch, spec):
            'plaingd': lambda: PF.PlainGD(net.parameters(), lr=lr),              # user-written optimiser: rebuilt by class
            'lbfgs': lambda: torch.optim.LBFGS(net.parameters(), lr=0.1, max_iter=2)}[spec['opt']]()
     nums = spec['numbers']
+    nv = {'n_batches_valid': 0} if spec.get('no_valid') else {}       # validation disabled: best model tracked by the training loss
     if kind == '1d':
         cond = IVP(nums[0], nums[1]) if ck == 'ivp' else DirichletBVP(nums[0], nums[1], nums[0] + 1.0, nums[2])
         bounds = {} if spec.get('no_bounds') else {'t_min': nums[0], 't_max': nums[0] + 1.0}
         return Solver1D(PF.ode1, [cond], nets=[net], optimizer=opt, loss_fn=loss,
                         train_generator=make_gen(torch, spec, 1, nums[0], nums[0] + 1.0, 'train'),
-                        valid_generator=make_gen(torch, spec, 1, nums[0], nums[0] + 1.0, 'valid'), **bounds)
+                        valid_generator=make_gen(torch, spec, 1, nums[0], nums[0] + 1.0, 'valid'), **bounds, **nv)
     if kind == '2d':
         fs = {'functions': (PF.edge_sin, PF.edge_zero, PF.edge_lin, PF.edge_zero),
               'nosource': (PF.nosrc_a, PF.nosrc_b, PF.nosrc_c, PF.nosrc_d),
@@ -296,13 +297,13 @@ def build_solver(torch, spec):
         lo, hi = (nums[0], nums[1]), (nums[0] + 1.0, nums[1] + 1.0)
         return Solver2D(PF.pde_laplace, [cond], xy_min=lo, xy_max=hi, nets=[net], optimizer=opt, loss_fn=loss,
                         train_generator=make_gen(torch, spec, 2, lo, hi, 'train'),
-                        valid_generator=make_gen(torch, spec, 2, lo, hi, 'valid'))
+                        valid_generator=make_gen(torch, spec, 2, lo, hi, 'valid'), **nv)
     cond = BundleIVP(nums[0], nums[1]) if ck == 'ivp' else BundleIVP(nums[0], None, bundle_param_lookup={'u_0': 0})
     epi = (0,) if spec['eq_param'] else ()
     ode = PF.ode_bundle_param if spec['eq_param'] else PF.ode_bundle_plain
     return BundleSolver1D(ode, [cond], t_min=nums[0], t_max=nums[0] + 1.0, theta_min=(0.5,), theta_max=(1.5,), eq_param_index=epi,
                           nets=[net], optimizer=opt, loss_fn=loss, train_generator=make_gen(torch, spec, 3, nums[0], nums[0] + 1.0, 'train'),
-                          valid_generator=make_gen(torch, spec, 3, nums[0], nums[0] + 1.0, 'valid'))
+                          valid_generator=make_gen(torch, spec, 3, nums[0], nums[0] + 1.0, 'valid'), **nv)
 
 
 def grid(torch, spec):
@@ -424,6 +425,7 @@ def run_scenario(ck, torch, spec, workdir, label):
     sourced = spec['kind'] == '2d' and spec['cond'] in ('functions', 'mixed')
     saved_on_this_object = False
     loads = 0
+    at_load = None               # lowest loss / best nets fingerprints the last load had to restore
     path = os.path.join(workdir, f'{label}.sol')
 
     def rec_epochs(store, sol):
@@ -431,7 +433,10 @@ def run_scenario(ck, torch, spec, workdir, label):
 
         def cb(s):
             now = gen_counts(s)
-            store.append({'train': float(s.metrics_history['train_loss'][-1]), 'valid': float(s.metrics_history['valid_loss'][-1]),
+            vh_ = s.metrics_history['valid_loss']
+            store.append({'train': float(s.metrics_history['train_loss'][-1]),
+                          'valid': float(vh_[-1]) if s.n_batches['valid'] > 0 and vh_ else float(s.metrics_history['train_loss'][-1]),
+                          'tracked': float(vh_[-1]) if s.n_batches['valid'] > 0 and vh_ else float(s.metrics_history['train_loss'][-1]),
                           'nets': [ids.get('net', fp_net(n)) for n in s.nets], 'opt': ids.get('opt', fp_opt(s.optimizer)),
                           'fp': [fp_net(n) for n in s.nets], 'draws': [now[0] - last[0], now[1] - last[1]]})
             last[:] = now
@@ -468,6 +473,15 @@ def run_scenario(ck, torch, spec, workdir, label):
                 break
             for e in eps:
                 log.append((e['valid'], e['fp'], loads))
+            # ---- oracle: epochs after a load whose tracked loss stays above the restored lowest loss must not replace the best nets
+            if at_load is not None and at_load['lowest'] is not None and eps and all(e['tracked'] > at_load['lowest'] for e in eps):
+                got_best = None if solver.best_nets is None else [fp_net(n) for n in solver.best_nets]
+                if got_best != at_load['best'] or solver.lowest_loss != at_load['lowest']:
+                    ck.fail('load/best-tracking-forgets-history', f'after load, {len(eps)} epoch(s) with losses {[round(e["tracked"], 4) for e in eps][:3]} all above the '
+                            f'saved lowest loss {at_load["lowest"]!r} replaced the best networks (lowest_loss is now {solver.lowest_loss!r}); n_batches_valid = '
+                            f'{"0" if spec.get("no_valid") else "default"}', dict(inp, failing_op=oi), at_load['lowest'], solver.lowest_loss)
+            if at_load is not None and eps and any(e['tracked'] <= (at_load['lowest'] if at_load['lowest'] is not None else float('inf')) for e in eps):
+                at_load = None       # a genuinely better epoch: the reference no longer applies
             trace.append([f'OFit {coq_epochs(eps)}', abstract(solver, ids, slots), None, tuple(rng_cnt)])
             fit_marks.append((oi, list(solver.metrics_history['train_loss']), list(solver.metrics_history['valid_loss']),
                               [fp_net(n) for n in solver.nets], gen_counts(solver), loads, fp_before_fit))
@@ -552,6 +566,11 @@ def run_scenario(ck, torch, spec, workdir, label):
                 if spec['custom_loss'] and loaded.loss_fn is not before['loss_fn']:
                     ck.fail('load/bundle-loss_fn-dropped' if spec['kind'] == 'bundle' else 'load/loss_fn-differs',
                             f'the loaded {type(loaded).__name__} does not use the saved loss function', dict(inp, failing_op=oi))
+                if loaded.lowest_loss != before['lowest']:
+                    ck.fail('load/lowest-loss-differs', f'lowest_loss of the loaded solver is {loaded.lowest_loss!r}, the saved solver\'s was {before["lowest"]!r} '
+                            f'(n_batches_valid = {"0: best model tracked by the training loss" if spec.get("no_valid") else "default"})',
+                            dict(inp, failing_op=oi), before['lowest'], loaded.lowest_loss)
+                at_load = {'lowest': before['lowest'], 'best': before['best']}
                 solver = loaded
                 loads += 1
                 saved_on_this_object = False
@@ -586,6 +605,8 @@ def run_scenario(ck, torch, spec, workdir, label):
             tw_before = [fp_net(n) for n in twin.nets]
             twin.fit(op[1], tqdm_file=None)
             _, th, vh, fps, cnts, n_loads, fp_before = marks[oi]
+            if spec.get('no_valid') and n_loads:
+                break
             got = (list(twin.metrics_history['train_loss']), list(twin.metrics_history['valid_loss']), [fp_net(n) for n in twin.nets], gen_counts(twin))
             if n_loads and fps == fp_before and got[2] != tw_before:
                 ck.fail(f'load/networks-do-not-move/{kname}', f'fit({op[1]}) on the loaded solver ({spec["opt"]} optimiser) leaves its network parameters '
@@ -601,7 +622,7 @@ def run_scenario(ck, torch, spec, workdir, label):
                 break
         ck.traces += len(fit_marks)
     PF.SCALE[0] = 1.0
-    if not trace:
-        return None
+    if not trace or spec.get('no_valid'):
+        return None              # Persist.v models best tracking by the validation loss (n_batches_valid > 0): oracle only here
     tr = '; '.join(f'({o}, {coq_obs(a, nf, rc)})' for o, a, nf, rc in trace)
     return f'check {s0} [{tr}]'
